@@ -94,10 +94,9 @@ Definition blank_line_separates (x pad y : list N) (ts : list token) : Prop :=
     tok_type t = TT_Subexpression.
 
 (* the form in which DESIGN.md section 8 states the clause: the prefix x lexes on its own
-   and does not end in a line annotation; then a Subexpression token covers the first line
-   feed of the blank line.  (Not proved as such: it needs a compositional lemma relating
-   lex x to the state reached after x inside the longer input; the theorems proved are the
-   two forms above, which replace the hypothesis on x by the type of the covering token.) *)
+   and does not end in a line annotation (whose token would swallow the first line feed);
+   pad is any run of spaces and tabs; then a Subexpression token covers the first line
+   feed of the blank line. *)
 Definition blank_line_full_statement (lexf : list N -> option (list token)) : Prop :=
   forall x pad y tx ts,
     lexf x = Some tx ->
